@@ -201,6 +201,14 @@ def gen_program(rng, pkg, n=None, p_explicit=0.15, p_hidden=0.12, min_memento=2,
             if nd["nested"]["call"] is not None:
                 f = call_form(rng, nodes, i, nd["nested"]["call"], 0.0)
                 nd["nested"]["form"] = "bare" if f == "alias" else f
+            # now and then the nested scope binds a name that the enclosing function also uses as a global
+            if rng.random() < 0.45:
+                inner_t = nodes[nd["nested"]["call"]]["name"] if nd["nested"]["call"] is not None else None
+                pool = [vars_[rd["v"]]["name"] for rd in nd["reads"] if rd["form"] == "bare"]
+                pool += [nodes[c["t"]]["name"] for c in nd["calls"] if c["form"] in ("bare", "chain")]
+                pool = [p_ for p_ in pool if p_ != inner_t and p_ not in BUILTIN_NAMES]
+                if pool:
+                    nd["nested"]["param"] = rng.choice(pool)
     in_a = [j for j in range(split, n_main) if nodes[j]["mod"] == "a"]
     if shadow and split > 2 and in_a:
         # ... it is called by a memento function and reaches module a as a.<name> only
@@ -374,15 +382,16 @@ def render_def(prog, i):
         L.append("    r += %s" % call_expr(prog, nd, c, "x + 1"))
     ne = nd["nested"]
     if ne:
+        tp = ne.get("param") or "t_"  # the name the nested scope binds
         if ne["kind"] == "lambda":
-            L.append("    r += (lambda t_: t_ + %d)(x)" % ne["const"])
+            L.append("    r += (lambda %s: %s + %d)(x)" % (tp, tp, ne["const"]))
         elif ne["kind"] == "comp":
-            L.append("    r += sum([t_ * %d for t_ in range(3)])" % ne["const"])
+            L.append("    r += sum([%s * %d for %s in range(3)])" % (tp, ne["const"], tp))
         else:
-            inner = "t_ + %d" % ne["const"]
+            inner = "%s + %d" % (tp, ne["const"])
             if ne["call"] is not None:
-                inner += " + " + call_expr(prog, nd, {"t": ne["call"], "form": ne["form"], "alias": ne.get("alias")}, "t_")
-            L += ["    def inner(t_):", "        return " + inner, "    r += inner(x)"]
+                inner += " + " + call_expr(prog, nd, {"t": ne["call"], "form": ne["form"], "alias": ne.get("alias")}, tp)
+            L += ["    def inner(%s):" % tp, "        return " + inner, "    r += inner(x)"]
     for p, d in nd["params"][1:] + nd["kwonly"]:
         L.append("    r += %s" % duse(p, d))
     for late in nd.get("late", []):
@@ -800,6 +809,8 @@ def features(prog):
         for k in ("tconst", "sconst", "nested"):
             if nd[k]:
                 f.add(k)
+        if nd["nested"] and nd["nested"].get("param"):
+            f.add("nested-scope binds a name used as a global: " + nd["nested"]["kind"])
         for _, d in nd["params"][1:] + nd["kwonly"] + ([["", nd["xconst"]]] if nd.get("xconst") is not None else []):
             f.add("lit:" + (d["t"] if isinstance(d, dict) else "int"))
         if nd["version"] is not None:
